@@ -174,9 +174,14 @@ class Ctx:
     def _match_finding(self, key):
         if key in self.finding_keys:
             return self.finding_keys[key]
+        import re
+
         for f in self.findings:
             pre = f.get("key_prefix")
             if pre and key.startswith(pre):
+                return f
+            rx = f.get("key_regex")
+            if rx and re.search(rx, key):
                 return f
         return None
 
@@ -198,7 +203,8 @@ class Ctx:
         if cov["evaluations"] == 0:
             cov["evaluations"] = cov["traces_validated_against_impl"]
         cov["known_findings_reproduced"] = sorted(self.known_hit)
-        stale = [f["key"] for f in self.findings if f.get("key") and f["key"] not in self.known_hit and not f.get("key_prefix")]
+        hit_ids = {id(f) for f in self.known_hit.values()}
+        stale = [f.get("key") or f.get("key_regex") or f.get("key_prefix") for f in self.findings if id(f) not in hit_ids]
         cov["known_findings_not_reproduced_this_run"] = stale
         ev = {
             "property_id": self.pid,
@@ -216,8 +222,11 @@ class Ctx:
         with open(tmp, "w") as f:
             json.dump(ev, f, indent=1, default=str)
         os.replace(tmp, os.path.join(EVIDENCE_DIR, f"{self.pid}.json"))
+        seen = {}
         for key, f in sorted(self.known_hit.items()):
-            print(f"KNOWN-FINDING: property={self.pid} {f.get('what', key)} [{key}]")
+            seen.setdefault(id(f), (f, []))[1].append(key)
+        for f, keys in seen.values():
+            print(f"KNOWN-FINDING: property={self.pid} {f.get('what', keys[0])} [{len(keys)} matching case keys, e.g. {keys[0]}]")
         for key, what, path in self.violations[:50]:
             print(f"VIOLATION property={self.pid} replay={path}  # {key} ({self.viol_count[key]} cases): {what[:600]}")
         if len(self.violations) > 50:
